@@ -142,6 +142,52 @@ def gen_archive_case(idx: int, up_levels_available: int, outside_abs: str, outsi
             "component": "ext2" if second is not None else "ext"}
 
 
+def link_depth_combos() -> List[Dict[str, Any]]:
+    """Link members at depth 0..3 whose link name carries 0..depth+2 parent segments (so that it
+    resolves inside or outside under EACH of the two readings: relative to the member's directory
+    - what tar means for symlinks - and relative to the extraction root - what tar means for hard
+    links), followed or not by a regular member of the same name; plus hard links at depth to a
+    file deeper inside the archive (root-relative link name without parent segments)."""
+    out = []
+    for kind in ("hard", "sym"):
+        for d in range(4):
+            for u in range(d + 3):
+                for followed in (True, False):
+                    out.append({"kind": kind, "depth": d, "ups": u, "followed": followed, "deep_target": False})
+    for d in (1, 2, 3):
+        for followed in (True, False):
+            out.append({"kind": "hard", "depth": d, "ups": 0, "followed": followed, "deep_target": True})
+    return out
+
+
+def gen_link_depth_case(idx: int, n: int) -> Dict[str, Any]:
+    """`n` selects the combination; `idx` seeds the decoration (extra members, compression)."""
+    r = vlib.rng("C18", "linkdepth", idx)
+    combos = link_depth_combos()
+    c = combos[n % len(combos)]
+    kind, d, u = c["kind"], c["depth"], c["ups"]
+    dirs = ["d%d" % k for k in range(d)]
+    members: List[Dict[str, Any]] = [{"name": "victim.txt", "data": "inside victim (top)"}]
+    for k in range(d):
+        members.append({"name": "/".join(dirs[:k + 1]), "kind": "dir"})
+        members.append({"name": "/".join(dirs[:k + 1]) + "/victim.txt", "data": "inside victim level %d" % (k + 1)})
+    link_path = "/".join(dirs + ["lk"])
+    linkname = ("d0/victim.txt" if c["deep_target"] else "../" * u + "victim.txt")
+    members.append({"name": link_path, "kind": kind, "target": linkname})
+    if c["followed"]:
+        members.append({"name": link_path, "data": "WRITTEN THROUGH %s LINK %d/%d" % (kind, d, u)})
+    # what tar means: hard-link names are relative to the extraction root, symlink targets to the member's directory
+    truly_outside = (u > 0) if kind == "hard" else (u > d)
+    other_reading_outside = (u > d) if kind == "hard" else (u > 0)
+    offending: Optional[bool] = (True if c["followed"] else None) if truly_outside else False
+    pre = _benign_members(r, r.randint(0, 1))
+    return {"kind": "archive", "idx": idx, "offending": offending, "members": pre + members, "second": None,
+            "cls": "linkdepth_%s_d%d_u%d_%s%s" % (kind, d, u, "followed" if c["followed"] else "alone",
+                                                   "_deeptarget" if c["deep_target"] else ""),
+            "truly_outside": truly_outside, "outside_under_other_reading": other_reading_outside,
+            "compress": r.choice(["", "", "gz"]), "format": r.choice(["gnu", "pax"]), "component": "ext"}
+
+
 def gen_copylink_case(idx: int) -> Dict[str, Any]:
     r = vlib.rng("C18", "copylink", idx)
     cls = ["copy_dir_with_outward_symlinks", "link_dir_then_copy_file", "copy_file_odd_name"][idx % 3]
